@@ -13,6 +13,13 @@
   the hypothesis holds by `PatchModel.Section.dirExists_parent_of_noSlash` (`C01_section_flat`).
   `hnh` is not needed by either proof (`hbody` already states the parsed patch); it is kept as given.
   C15_section_fidelity is proved as stated.
+
+  Statement adjustment with the model change D97 (`LineWriter::terminate_last_line`, `terminateInner` in `render`): the bytes written
+  are `Render.renderText mode (splice …)` — every line as it is in the mode, except that a line without newline which is not the last
+  one gets the newline of the mode — where they were `renderLines mode (splice …)`.  A `Valid` script may put an added line behind an
+  unterminated one (`C01.C01_bytes_glue`: file "c", hunk " c" / "+d\n": "c\nd\n" is written, `renderLines` gives "cd\n").  When the
+  intended file is a text whose only possibly unterminated line is the last (`Render.LinesTerminated`, true of the lines of every file
+  as read: `Render.linesTerminated_splitLines`) the two are the same: `C01_section_terminated`.
 -/
 import PatchModel.Model.Driver
 import PatchModel.Spec.Script
@@ -31,6 +38,17 @@ structure PlainOpts (o : Options) (p : Bytes) : Prop where
   fuzz : 0 ≤ o.maxFuzz
   quiet : o.verbose = false
 
+/-- the bytes of what the applier puts out without `-D`, its lines being `ls` (D97: `Render.renderText`, not `renderLines`) -/
+theorem render_of_lines {file : List Line} {p0 : Patch} {ao : ApplyOpts} {tty : Option (List Bool)} {r : ApplyResult}
+    {ls : List Line} (mode : NewlineOutput) (hD : ao.define = []) (hap : applyPatch file p0 ao tty = .ok r)
+    (hrout : r.out.map Out.line = ls) : render mode r.out = Render.renderText mode ls :=
+  Render.render_eq_renderText_of_map_line _ (ApplyLoop.applyPatch_noBare hD hap) hrout
+
+/-- … which are `renderLines` when only the last of the lines may lack its newline -/
+theorem render_of_lines_terminated {r : ApplyResult} {ls : List Line} (mode : NewlineOutput) (hrout : r.out.map Out.line = ls) (ht : Render.LinesTerminated ls) :
+    render mode r.out = renderLines mode ls :=
+  Render.render_of_map_line _ hrout ht
+
 /-- the hypotheses of the two theorems give a `PlainSection`: the applier's verdict comes from `applyPatch_valid` -/
 theorem plainSection_of_valid (o : Options) (fmt : Format) (s : DState) (p bytes : Bytes) (m : Nat)
     (patch0 : Patch) (info : HeaderInfo) (par1 par2 : Parser) (hs : List Hunk)
@@ -42,13 +60,13 @@ theorem plainSection_of_valid (o : Options) (fmt : Format) (s : DState) (p bytes
     (hfile : s.fs.lookup p = some (.file bytes m)) (hw : m &&& writeMask ≠ 0) (hroot : s.fs.isRoot = true)
     (hvalid : Valid (splitLines bytes) 0 0 hs) (hf : s.faultAt = none) :
     ∃ r, PlainSection o fmt s p bytes m patch0 { patch0 with hunks := hs } info par1 par2 r ∧
-      render o.newlineOutput r.out = renderLines o.newlineOutput (splice (splitLines bytes) 0 hs) := by
+      render o.newlineOutput r.out = Render.renderText o.newlineOutput (splice (splitLines bytes) 0 hs) := by
   have hrev : (applyOptsOf o).reverse = false := ho.noReverse
   obtain ⟨r, hap, hrout, _, hrfail, _, hrperf, hrskip, _, hrmsgs, hrtty, hrpatch⟩ :=
     applyPatch_valid (splitLines bytes) hs { patch0 with hunks := hs } (applyOptsOf o)
       (Option.map (fun l => List.map (fun a => !List.isEmpty a && List.head? a != some 110) l) s.tty)
       hvalid (by rw [hrev]; rfl) ho.noDefine ho.fuzz
-  refine ⟨r, ?_, by rw [render, hrout]⟩
+  refine ⟨r, ?_, render_of_lines _ ho.noDefine hap hrout⟩
   exact {
     operand := ho.operand, noOut := ho.noOut, noBackup := ho.noBackup, pathNe := hp, cwd := hcwd, hdr := hhdr,
     fmt := hfmt, op := hop, pre := hpre, body := hbody, fmt2 := rfl, op2 := hop, newMode2 := hnm, file := hfile,
@@ -68,7 +86,7 @@ theorem C01_section (o : Options) (fmt : Format) (s : DState) (p bytes : Bytes) 
     (hdir : s.fs.dirExists (parentOf p) = true)   -- added: see the note at the top of the file
     (hvalid : Valid (splitLines bytes) 0 0 hs) (hf : s.faultAt = none) :
     ∃ s', (processSection o fmt).run s = (.ok true, s') ∧
-      s'.fs.lookup p = some (.file (renderLines o.newlineOutput (splice (splitLines bytes) 0 hs)) m) ∧
+      s'.fs.lookup p = some (.file (Render.renderText o.newlineOutput (splice (splitLines bytes) 0 hs)) m) ∧
       (∀ q, q ≠ p → s'.fs.lookup q = s.fs.lookup q) ∧
       s'.hadFailure = s.hadFailure ∧ s'.par = par2 ∧ s'.dWrites = s.dWrites ∧ s'.dRemovals = s.dRemovals := by
   obtain ⟨r, H, hrender⟩ := plainSection_of_valid o fmt s p bytes m patch0 info par1 par2 hs ho hp hcwd hhdr hfmt hop
@@ -78,6 +96,29 @@ theorem C01_section (o : Options) (fmt : Format) (s : DState) (p bytes : Bytes) 
   · rw [hfs, DriverFacts.Fs.lookup_set_self, hrender]
   · intro q hq
     rw [hfs, DriverFacts.Fs.lookup_set_ne _ _ _ _ hq]
+
+set_option linter.unusedVariables false in
+/-- the intended new file is a text whose only possibly unterminated line is its last: the target gets its lines, rendered one by one
+    (the statement of `C01_section` before D97) -/
+theorem C01_section_terminated (o : Options) (fmt : Format) (s : DState) (p bytes : Bytes) (m : Nat)
+    (patch0 : Patch) (info : HeaderInfo) (par1 par2 : Parser) (hs : List Hunk)
+    (ho : PlainOpts o p) (hreal : o.dryRun = false) (hp : p ≠ []) (hcwd : s.cwd = [])
+    (hhdr : parseHeader s.par { format := fmt } o.strip = .ok (true, patch0, info, par1))
+    (hfmt : patch0.format = .unified ∨ patch0.format = .context ∨ patch0.format = .normal)
+    (hop : patch0.operation = .change) (hpre : patch0.prerequisite = []) (hnh : patch0.hunks = []) (hnm : patch0.newMode = 0)
+    (hbody : parseBody par1 patch0 = .ok ({ patch0 with hunks := hs }, par2))
+    (hfile : s.fs.lookup p = some (.file bytes m)) (hw : m &&& writeMask ≠ 0) (hroot : s.fs.isRoot = true)
+    (hdir : s.fs.dirExists (parentOf p) = true)
+    (hvalid : Valid (splitLines bytes) 0 0 hs) (hf : s.faultAt = none)
+    (hnew : Render.LinesTerminated (splice (splitLines bytes) 0 hs)) :
+    ∃ s', (processSection o fmt).run s = (.ok true, s') ∧
+      s'.fs.lookup p = some (.file (renderLines o.newlineOutput (splice (splitLines bytes) 0 hs)) m) ∧
+      (∀ q, q ≠ p → s'.fs.lookup q = s.fs.lookup q) ∧
+      s'.hadFailure = s.hadFailure ∧ s'.par = par2 ∧ s'.dWrites = s.dWrites ∧ s'.dRemovals = s.dRemovals := by
+  have h := C01_section o fmt s p bytes m patch0 info par1 par2 hs ho hreal hp hcwd hhdr hfmt hop hpre hnh hnm hbody hfile hw hroot
+    hdir hvalid hf
+  rw [Render.renderText_eq_renderLines _ _ hnew] at h
+  exact h
 
 set_option linter.unusedVariables false in
 /-- the target is in the working directory itself: no side condition about its directory -/
@@ -92,7 +133,7 @@ theorem C01_section_flat (o : Options) (fmt : Format) (s : DState) (p bytes : By
     (hflat : ∀ c ∈ p, c ≠ SLASHB)
     (hvalid : Valid (splitLines bytes) 0 0 hs) (hf : s.faultAt = none) :
     ∃ s', (processSection o fmt).run s = (.ok true, s') ∧
-      s'.fs.lookup p = some (.file (renderLines o.newlineOutput (splice (splitLines bytes) 0 hs)) m) ∧
+      s'.fs.lookup p = some (.file (Render.renderText o.newlineOutput (splice (splitLines bytes) 0 hs)) m) ∧
       (∀ q, q ≠ p → s'.fs.lookup q = s.fs.lookup q) ∧
       s'.hadFailure = s.hadFailure ∧ s'.par = par2 ∧ s'.dWrites = s.dWrites ∧ s'.dRemovals = s.dRemovals :=
   C01_section o fmt s p bytes m patch0 info par1 par2 hs ho hreal hp hcwd hhdr hfmt hop hpre hnh hnm hbody hfile hw hroot
@@ -188,6 +229,7 @@ end PatchModel.C01
 
 #print axioms PatchModel.C01.guessFilepath_delete_missing
 #print axioms PatchModel.C01.C01_section
+#print axioms PatchModel.C01.C01_section_terminated
 #print axioms PatchModel.C01.C01_section_flat
 #print axioms PatchModel.C01.C01_section_needs_parent
 #print axioms PatchModel.C01.C15_section_fidelity
